@@ -15,7 +15,7 @@ import (
 func init() {
 	register("C04",
 		"exactness of the Julian-Day formula and of its floating-point inverse, additivity of NextDay over month lengths, minute/hour carries, and every other numeric agreement between the stepping functions and the day count.",
-		r04_1, r04_2, r04_3, r04_4, r04_5, r04_6, r04_7, r04_8, r04_9, r07_3, r15_7)
+		r04_1, r04_2, r04_3, r04_4, r04_5, r04_6, r04_8, r04_9, r07_3, r15_7)
 }
 
 var solarComponent = map[string]int{"Solar.year": 0, "Solar.month": 1, "Solar.day": 2, "Solar.hour": 3, "Solar.minute": 4, "Solar.second": 5}
@@ -88,6 +88,9 @@ func lexOrderTable(c *Ctx, fn *ssa.Function, wantAfter bool) (n int, problem str
 				y, ok2 := evalWith(fr, bo.Y, leaf)
 				cx, isX := x.(absComp)
 				cy, isY := y.(absComp)
+				if !isX && !isY {
+					return nil, false // an ordinary integer comparison (a loop counter against a bound): the evaluator's own business
+				}
 				if !ok1 || !ok2 || !isX || !isY {
 					if problem == "" {
 						problem = "comparison operand is not a date component of one of the two dates: " + bo.String()
@@ -211,12 +214,6 @@ func checkDelegationArgs(c *Ctx, r *Report, rule string, fn *ssa.Function, calle
 
 // ---------- R04.2 the 1582 gap ----------
 
-// gapRegion: the true successor of "m == 10" reached from the true successor of "y == 1582".
-type gapRegion struct {
-	entry *ssa.BasicBlock
-	guard *ssa.BasicBlock
-}
-
 func isEqConst(cond ssa.Value, k int64) (ssa.Value, bool) {
 	bo, ok := cond.(*ssa.BinOp)
 	if !ok || bo.Op != token.EQL {
@@ -231,29 +228,6 @@ func isEqConst(cond ssa.Value, k int64) (ssa.Value, bool) {
 	return nil, false
 }
 
-func gapRegions(fn *ssa.Function) []gapRegion {
-	var out []gapRegion
-	for _, b := range fn.Blocks {
-		iff, ok := b.Instrs[len(b.Instrs)-1].(*ssa.If)
-		if !ok {
-			continue
-		}
-		if _, ok := isEqConst(iff.Cond, 1582); !ok {
-			continue
-		}
-		mb := b.Succs[0]
-		if len(mb.Instrs) == 0 {
-			continue
-		}
-		if iff2, ok := mb.Instrs[len(mb.Instrs)-1].(*ssa.If); ok {
-			if _, ok := isEqConst(iff2.Cond, 10); ok {
-				out = append(out, gapRegion{entry: mb.Succs[0], guard: b})
-			}
-		}
-	}
-	return out
-}
-
 type gapAction struct {
 	lo, hi int64
 	action string
@@ -261,7 +235,7 @@ type gapAction struct {
 
 // analyseGapRegion enumerates the paths inside the region and returns, per path,
 // the interval of the tested day variable (over 1..31) and the action taken.
-func analyseGapRegion(g gapRegion) ([]gapAction, string) {
+func analyseGapRegion(g gapSite) ([]gapAction, string) {
 	paths, ok := enumPaths(g.entry, func(from, to *ssa.BasicBlock) bool { return !g.entry.Dominates(to) }, 64)
 	if !ok {
 		return nil, "region is not loop-free"
@@ -320,12 +294,8 @@ func analyseGapRegion(g gapRegion) ([]gapAction, string) {
 				case *ssa.Panic:
 					action = "panic"
 				case *ssa.BinOp:
-					if k, ok := constInt(x.Y); ok && k == 10 {
-						if x.Op == token.ADD {
-							action = "+10"
-						} else if x.Op == token.SUB {
-							action = "-10"
-						}
+					if a := gapAddAction(g.fr, x); a != "" {
+						action = a
 					}
 				case *ssa.Return:
 					if len(x.Results) == 1 {
@@ -355,26 +325,44 @@ func gapTableString(as []gapAction) string {
 
 func r04_2(c *Ctx, r *Report) {
 	const rule = "R04.2"
-	r.rule(rule, "The 1582 gap is described consistently. The two gap sites that contain loops are analysed by path enumeration with interval constraints on the day under their year == 1582 && month == 10 guards: GetDaysInYear rejects 5..14 and subtracts 10 from 15..31; NextDay removes the 10 missing days before stepping and re-inserts them after (days > 4). The loop-free sites (NewSolar, NextYear, NextMonth, GetDaysOfMonth, GetDaysOfYear, IsLeapYear) are decided as decision tables by R04.8; any other function with such a guard is unreviewed and fails. GetJulianDay's switch constant is 1582*372+10*31+15; NewSolarFromJulianDay's switch constant is the day number of 1582-10-15.")
+	r.rule(rule, "The 1582 gap is described consistently. A gap site is a region of code that runs only when something == 1582 and something == 10 are known (E13 facts: nested or merged ifs, boolean helpers), in a function or in the helpers it hands its work to. The two stepping functions that contain loops are analysed by path enumeration with interval constraints on the day inside their sites: GetDaysInYear rejects 5..14 and subtracts 10 from 15..31; NextDay removes the 10 missing days before stepping and re-inserts them after (days > 4), the removal looking at the receiver's own year and month and the re-insertion at the year and month the result is built with, and the two tests are passed as a pair (no path returns after the removal test without passing the re-insertion test, or reaches the second without the first; a path that passes neither returns its input unchanged). The loop-free sites (NewSolar, NextYear, NextMonth, GetDaysOfMonth and their helpers) are decided as decision tables by R04.8; a gap site in a function that none of these reaches is unreviewed and fails. GetJulianDay's switch constant is 1582*372+10*31+15; NewSolarFromJulianDay's switch constant is the day number of 1582-10-15.")
 	expect := map[string][]string{
 		"SolarUtil.GetDaysInYear":   {"[5,14]:panic [15,31]:-10"},
 		"calendar.(*Solar).NextDay": {"[5,31]:-10", "[5,31]:+10"},
 	}
 	// the loop-free gap sites are decided as decision tables by R04.8
-	byTable := map[string]bool{"calendar.NewSolar": true, "calendar.(*Solar).NextYear": true, "calendar.(*Solar).NextMonth": true, "SolarUtil.GetDaysOfMonth": true}
+	byTable := []string{"calendar.NewSolar", "calendar.(*Solar).NextYear", "calendar.(*Solar).NextMonth", "SolarUtil.GetDaysOfMonth"}
+	stop := map[string]bool{}
 	var names []string
 	for n := range expect {
 		names = append(names, n)
+		stop[n] = true
+	}
+	for _, n := range byTable {
+		stop[n] = true
 	}
 	sort.Strings(names)
+	reviewed := map[*ssa.Function]bool{}
+	for _, n := range byTable {
+		if fn := c.FuncBy[n]; fn != nil {
+			for _, fr := range helperTree(c, fn, stop) {
+				reviewed[fr.fn] = true
+			}
+		}
+	}
 	for _, name := range names {
 		fn := c.Fn(r, rule, name)
 		if fn == nil {
 			continue
 		}
-		regs := gapRegions(fn)
+		frames := helperTree(c, fn, stop)
+		var sites []gapSite
+		for _, fr := range frames {
+			reviewed[fr.fn] = true
+			sites = append(sites, gapSitesIn(c, fr)...)
+		}
 		var got []string
-		for _, g := range regs {
+		for _, g := range sites {
 			as, problem := analyseGapRegion(g)
 			if problem != "" {
 				got = append(got, "?"+problem)
@@ -383,60 +371,19 @@ func r04_2(c *Ctx, r *Report) {
 			got = append(got, gapTableString(as))
 		}
 		r.check(equalStrs(got, expect[name]), rule, name+" treats October 1582 as "+strings.Join(expect[name], " then "), c.fnPos(fn),
-			fmt.Sprintf("derived day intervals and actions under year == 1582 && month == 10: %q", got))
-		if name == "calendar.(*Solar).NextDay" && len(regs) == 2 && len(fn.Params) == 2 {
-			// which date each guard looks at: the removal the receiver's own year and month, the re-insertion
-			// the year and month the result is built with
-			var ctor *ssa.Call
-			for _, b := range fn.Blocks {
-				for _, ins := range b.Instrs {
-					if call, ok := ins.(*ssa.Call); ok && call.Common().StaticCallee() != nil && fname(call.Common().StaticCallee()) == "calendar.NewSolar" && len(call.Common().Args) == 6 {
-						ctor = call
-					}
-				}
-			}
-			who := func(v ssa.Value, field string, arg int) string {
-				if rc, f, ok := getterField(c, v); ok && f == field && rc == ssa.Value(fn.Params[0]) {
-					if ctor != nil {
-						if rc2, f2, ok2 := getterField(c, ctor.Common().Args[arg]); ok2 && f2 == field && rc2 == rc {
-							return "both" // the result is built with the receiver's own value (no stepping of this component)
-						}
-					}
-					return "receiver"
-				}
-				if ctor != nil && v == ctor.Common().Args[arg] {
-					return "result"
-				}
-				return "other: " + v.String()
-			}
-			var desc []string
-			okk := ctor != nil
-			for i, g := range regs {
-				y, _ := isEqConst(g.guard.Instrs[len(g.guard.Instrs)-1].(*ssa.If).Cond, 1582)
-				mb := g.guard.Succs[0]
-				m, _ := isEqConst(mb.Instrs[len(mb.Instrs)-1].(*ssa.If).Cond, 10)
-				wy, wm := who(y, "Solar.year", 0), who(m, "Solar.month", 1)
-				desc = append(desc, fmt.Sprintf("guard %d tests the year of the %s and the month of the %s", i+1, wy, wm))
-				as, _ := analyseGapRegion(g)
-				plus := strings.Contains(gapTableString(as), "+10")
-				want := "receiver"
-				if plus {
-					want = "result"
-				}
-				if wy != want || wm != want {
-					okk = false
-				}
-			}
-			r.check(okk, rule, name+": the removal looks at the receiver's date, the re-insertion at the stepped date", c.fnPos(fn), strings.Join(desc, "; "))
+			fmt.Sprintf("derived day intervals and actions where year == 1582 && month == 10 is known (%d functions followed): %q", len(frames), got))
+		if name == "calendar.(*Solar).NextDay" && len(sites) == 2 {
+			nextDayGapDates(c, r, rule, fn, frames, sites, stop)
 		}
 	}
-	// any other function with such a guard is unreviewed
+	// a gap site nothing above reaches is unreviewed
+	cand := mentions1582(c)
 	for _, fn := range c.Funcs {
-		if _, known := expect[fname(fn)]; known || byTable[fname(fn)] || isInit(fn) {
+		if reviewed[fn] || !cand[fn] || isInit(fn) {
 			continue
 		}
-		if len(gapRegions(fn)) > 0 {
-			r.bad(rule, fname(fn)+" has an unreviewed October-1582 special case", c.fnPos(fn), "a guard year == 1582 && month == 10 exists here but the function is not in the reviewed table of gap sites (undecided = fail)")
+		if len(gapSitesIn(c, &evalFrame{fn: fn})) > 0 {
+			r.bad(rule, fname(fn)+" has an unreviewed October-1582 special case", c.fnPos(fn), "code that runs only when year == 1582 && month == 10 exists here, and the function is not one of the reviewed gap sites or a helper of one (undecided = fail)")
 		}
 	}
 	// constants
@@ -455,7 +402,7 @@ func r04_2(c *Ctx, r *Report) {
 		jdn := d + (153*mm+2)/5 + 365*yy + yy/4 - yy/100 + yy/400 - 32045
 		r.check(hasConst(fn, float64(jdn)), rule, "calendar.NewSolarFromJulianDay switches to the Gregorian correction at the day number of 1582-10-15", c.fnPos(fn), fmt.Sprintf("constant %d", jdn))
 	}
-	r.floor(rule, 4)
+	r.floor(rule, 5)
 }
 
 // ---------- R04.3 delegation ----------
@@ -536,7 +483,7 @@ func countConst(uses []constUse, op token.Token, k int64) int {
 
 func r04_5(c *Ctx, r *Report) {
 	const rule = "R04.5"
-	r.rule(rule, "Time units. SubtractMinute(o) is 1440 * (day difference) + (own hour*60 + minute) - (o's hour*60 + minute), the day difference being Subtract(o): followed by the evaluator for day differences -2..2 and times of day on both sides; NextHour(n) moves the date by floor((hour + n) / 24) days through NextDay and sets the hour to (hour + n) mod 24, minute and second unchanged: followed for every start hour and n in -60..60 (the date calls are abstract inputs). GetJulianDay divides the time of day by 60, 60, 24 and NewSolarFromJulianDay (with its helpers) multiplies the fraction by 24, 60, 60: the same units in mirrored order (the carries themselves are R04.9).")
+	r.rule(rule, "Time units. SubtractMinute(o) is 1440 * (day difference) + (own hour*60 + minute) - (o's hour*60 + minute), the day difference being Subtract(o): followed by the evaluator for day differences -2..2 and times of day on both sides; NextHour(n) moves the date by floor((hour + n) / 24) days through NextDay and sets the hour to (hour + n) mod 24, minute and second unchanged: followed for every start hour and n in -60..60 (the date calls are abstract inputs). The expression GetJulianDay returns, as an affine form with exact rational coefficients over its parameters (E11b: helpers inline, truncations and merges are atoms), has coefficient 1 for the day, 1/24 for the hour, 1/1440 for the minute and 1/86400 for the second; NewSolarFromJulianDay (with its helpers) multiplies the fraction by 24, 60, 60 (the carries themselves are R04.9).")
 	solarFields := func(recv ssa.Value, vals [6]int64, fr *evalFrame, v ssa.Value) (interface{}, bool) {
 		if rc, f, ok := getterField(c, v); ok {
 			if ofr, o := fr.origin(rc); ofr.parent == nil && o == recv {
@@ -685,12 +632,31 @@ func r04_5(c *Ctx, r *Report) {
 		return out
 	}
 	g, h := c.Fn(r, rule, "SolarUtil.GetJulianDay"), c.Fn(r, rule, "calendar.NewSolarFromJulianDay")
-	if g != nil && h != nil {
-		divs, muls := floatConsts(g, token.QUO), floatConsts(h, token.MUL)
-		okk := len(divs) == 3 && len(muls) == 3 && divs[0] == 24 && divs[1] == 60 && divs[2] == 60 && muls[0] == 24 && muls[1] == 60 && muls[2] == 60
-		r.check(okk, rule, "GetJulianDay and NewSolarFromJulianDay use the units 24, 60, 60", c.fnPos(h), fmt.Sprintf("divisions %v; multiplications %v", divs, muls))
+	if g != nil && len(g.Params) == 6 {
+		// the returned expression as an affine form with exact rational coefficients over the parameters
+		// (E11b; helpers inline, truncations and merges are atoms)
+		var forms []string
+		okk, n := true, 0
+		for _, ret := range returnsIn(g, nil) {
+			if len(ret.Results) != 1 {
+				continue
+			}
+			n++
+			f := ratAffineOf(&evalFrame{fn: g}, ret.Results[0], 0)
+			got := []string{ratCoefString(f, g.Params[2].Name()), ratCoefString(f, g.Params[3].Name()), ratCoefString(f, g.Params[4].Name()), ratCoefString(f, g.Params[5].Name())}
+			forms = append(forms, fmt.Sprintf("day %s, hour %s, minute %s, second %s", got[0], got[1], got[2], got[3]))
+			if !equalStrs(got, []string{"1", "1/24", "1/1440", "1/86400"}) {
+				okk = false
+			}
+		}
+		r.check(okk && n > 0, rule, "SolarUtil.GetJulianDay adds the time of day as hour/24 + minute/1440 + second/86400 of a day", c.fnPos(g), "coefficients of the returned expression: "+strings.Join(forms, "; "))
 	}
-	r.floor(rule, 3)
+	if g != nil && h != nil {
+		muls := floatConsts(h, token.MUL)
+		okk := len(muls) == 3 && muls[0] == 24 && muls[1] == 60 && muls[2] == 60
+		r.check(okk, rule, "NewSolarFromJulianDay multiplies the fraction of the day by 24, 60, 60", c.fnPos(h), fmt.Sprintf("multiplications %v", muls))
+	}
+	r.floor(rule, 4)
 }
 
 // ---------- R04.6 mirror symmetry of the day difference ----------
@@ -876,65 +842,4 @@ func resultArms(fn *ssa.Function) []ssa.Value {
 		}
 	}
 	return out
-}
-
-// ---------- R04.7 clamp consistency ----------
-
-func r04_7(c *Ctx, r *Report) {
-	const rule = "R04.7"
-	r.rule(rule, "Clamps consult the target date. In NextYear and NextMonth the leap-year test, the month-length lookup and the October-1582 guard that adjust the day must be about the very year and month values that are passed to NewSolar (the target), not the receiver's.")
-	for _, name := range []string{"calendar.(*Solar).NextYear", "calendar.(*Solar).NextMonth"} {
-		fn := c.Fn(r, rule, name)
-		if fn == nil {
-			continue
-		}
-		var ty, tm ssa.Value
-		for _, b := range fn.Blocks {
-			for _, ins := range b.Instrs {
-				if call, ok := ins.(*ssa.Call); ok && call.Common().StaticCallee() != nil && fname(call.Common().StaticCallee()) == "calendar.NewSolar" {
-					ty, tm = call.Common().Args[0], call.Common().Args[1]
-				}
-			}
-		}
-		if ty == nil {
-			r.bad(rule, name+" builds its result with NewSolar", c.fnPos(fn), "no call to NewSolar found (undecided = fail)")
-			continue
-		}
-		var bad []string
-		n := 0
-		for _, b := range fn.Blocks {
-			for _, ins := range b.Instrs {
-				switch x := ins.(type) {
-				case *ssa.Call:
-					callee := x.Common().StaticCallee()
-					if callee == nil {
-						continue
-					}
-					switch fname(callee) {
-					case "SolarUtil.IsLeapYear":
-						n++
-						if x.Common().Args[0] != ty {
-							bad = append(bad, "IsLeapYear is asked about "+describeArg(c, fn, x.Common().Args[0])+", not about the target year")
-						}
-					case "calendar.(*Solar).IsLeapYear":
-						n++
-						bad = append(bad, "the receiver's own leap-year status is consulted instead of the target year's")
-					case "SolarUtil.GetDaysOfMonth":
-						n++
-						if x.Common().Args[0] != ty || x.Common().Args[1] != tm {
-							bad = append(bad, "GetDaysOfMonth is asked about another (year, month) than the target")
-						}
-					}
-				case *ssa.If:
-					if v, ok := isEqConst(x.Cond, 1582); ok {
-						n++
-						if v != ty {
-							bad = append(bad, "the 1582 guard tests another value than the target year")
-						}
-					}
-				}
-			}
-		}
-		r.check(len(bad) == 0 && n >= 2, rule, name+" clamps against the target year/month", c.fnPos(fn), fmt.Sprintf("%d clamp inputs checked; %s", n, strings.Join(bad, "; ")))
-	}
 }
